@@ -68,40 +68,45 @@ _frame = 'AC_FRAME, CHS_FRAME, CPD(spaces), CPD(column), CPD(last_char), CPD(did
 EC, EN, ES, EA = E('CPD(column)'), E('g_chs_n'), E('CPD(spaces)'), E('g_ac_n')
 
 
-def _adv_inv(tabs_expr):
-    # common part of the invariants of the "advance with blanks/tabs" loops
-    return (' && CPD(column) >= %s && CPD(column) < (1UL << 30) + 64 && CPD(did_newline) == 0' % EC +
+def _adv_inv(tabs_expr, target, also=None):
+    # common part of the invariants of the "advance with blanks/tabs" loops.  D = distance still to go; the three
+    # "potential" bounds (pending blanks + D, recorded calls + D, written items + pending + D) never grow, which keeps
+    # the absolute size preconditions of add_text/add_char (UINT16 cpd.spaces < 65000, ghost counters) inductive.
+    D = '(%s > CPD(column) ? %s - CPD(column) : 0UL)' % (target, target)
+    if also:
+        D = '(%s + (%s > CPD(column) ? %s - CPD(column) : 0UL))' % (D, also, also)
+    return (' && CPD(column) >= 1 && CPD(column) >= %s && (CPD(column) <= %s || CPD(column) == %s) && CPD(did_newline) == 0' % (EC, target, EC) +
+            ' && CPD(column) < (1UL << 30) && %s < (1UL << 31) && g_ac_n < MAXCAP && g_chs_n < MAXCAP && CPD(spaces) + %s < 60000 && g_ac_n + %s < MAXCAP - (1UL << 30) && g_chs_n + CPD(spaces) + %s < MAXCAP - (1UL << 30)' % (D, D, D, D) +
             ' && (CPD(last_char) == 32 || CPD(last_char) == 9 || CPD(last_char) == %s)' % E('CPD(last_char)') +
-            ' && g_chs_n >= %s && g_chs_n + CPD(spaces) <= %s + %s + (CPD(column) - %s)' % (EN, EN, ES, EC) +
-            ' && g_ac_n >= %s && g_ac_n - %s <= CPD(column) - %s' % (EA, EA, EC) +
+            ' && g_ac_n >= %s' % EA +
             ' && ((g_ac_K >= %s && g_ac_K < g_ac_n) ==> ((g_ac_ch_at_K == 32 || (%s && g_ac_ch_at_K == 9)) && !g_ac_lit_at_K))' % (EA, tabs_expr) +
             ' && (g_ac_K < %s ==> (g_ac_ch_at_K == %s && g_ac_lit_at_K == %s))' % (EA, E('g_ac_ch_at_K'), E('g_ac_lit_at_K')))
 
 
+# (flags are compared through '!': a havocked _Bool may carry any non-zero bit pattern for "true")
+_TABS_ONLY = ' && !g_ac_seen_blank == !%s && (!%s ==> !g_ac_tab_after_blank == !%s)' % (E('g_ac_seen_blank'), E('g_ac_seen_blank'), E('g_ac_tab_after_blank'))
+_BLANKS_ONLY = ' && !g_ac_tab_after_blank == !%s' % E('g_ac_tab_after_blank')
+
 L_output_to_column = [
     dict(fn='output_to_column', id=0, vars=['next_column', 'column', 'allow_tabs'],
          assigns='next_column, ' + _frame,
-         inv='next_column > CPD(column) && next_column <= CPD(column) + optv_output_tab_size && allow_tabs'
-             ' && (CPD(column) <= column + 32 || CPD(column) == %s)' % EC + _adv_inv('1') +
-             ' && g_ac_seen_blank == %s && g_ac_tab_after_blank == %s' % (E('g_ac_seen_blank'), E('g_ac_tab_after_blank')),
+         inv='allow_tabs' + _adv_inv('1', 'column') + _TABS_ONLY +
+             ' && next_column == NTC(CPD(column)) && next_column > CPD(column) && next_column <= CPD(column) + optv_output_tab_size',
          decreases='column + 64 - CPD(column)'),
     dict(fn='output_to_column', id=1, vars=['column', 'allow_tabs'],
          assigns=_frame,
-         inv='(CPD(column) <= column || CPD(column) == %s)' % EC + _adv_inv('0') +
-             ' && g_ac_tab_after_blank == %s' % E('g_ac_tab_after_blank'),
+         inv='1' + _adv_inv('0', 'column') + _BLANKS_ONLY,
          decreases='column + 64 - CPD(column)'),
 ]
 
 L_cmt_output_indent = [
-    dict(fn='cmt_output_indent', id=0, vars=['tab_col', 'iwt'],
+    dict(fn='cmt_output_indent', id=0, vars=['tab_col', 'iwt', 'column'],
          assigns=_frame,
-         inv='(CPD(column) <= tab_col + 32 || CPD(column) == %s) && iwt != 0' % EC + _adv_inv('1') +
-             ' && g_ac_seen_blank == %s && g_ac_tab_after_blank == %s' % (E('g_ac_seen_blank'), E('g_ac_tab_after_blank')),
+         inv='iwt != 0' + _adv_inv('1', 'tab_col', 'column') + _TABS_ONLY,
          decreases='tab_col + 64 - CPD(column)'),
     dict(fn='cmt_output_indent', id=1, vars=['column'],
          assigns=_frame,
-         inv='(CPD(column) <= column || CPD(column) == %s)' % EC + _adv_inv('0') +
-             ' && g_ac_tab_after_blank == %s' % E('g_ac_tab_after_blank'),
+         inv='1' + _adv_inv('0', 'column') + _BLANKS_ONLY,
          decreases='column + 64 - CPD(column)'),
 ]
 
@@ -124,7 +129,7 @@ def all_proofs(include_wip=False):
 
 
 # proofs that do not close yet (kept for --only runs, never part of a registered check)
-WIP = ['output_to_column', 'cmt_output_indent', 'add_text_ascii']
+WIP = []
 
 
 def select(names):
@@ -174,17 +179,17 @@ def _all():
           functions=['output.cpp:add_text(const UncText&, is_ignored=false)'],
           expect=['add_text_regular_contract.postcondition', 'loop_decreases'],
           mutants=[('literal_flag_lost', r'add_char\(ch, is_literal\);', 'add_char(ch, false);', 'postcondition|loop_invariant')]),
-        P('add_text_ascii', harness='h_add_text_ascii', enforce='add_text_ascii/add_text_ascii_contract',
-          replace=['add_char/add_char_callers_contract'], unwindset='add_text_ascii.0:3',
+        P('add_text_ascii', harness='h_add_text_ascii', defines=['NTC_TABLE'], enforce='add_text_ascii/add_text_ascii_contract',
+          replace=['add_char/add_char_callers_contract'], unwindset='add_text_ascii_wrapped_for_contract_checking.0:3',
           note='string length fixed to 1 by the precondition: loop unwound 3 with unwinding assertion, complete for this contract',
           functions=['output.cpp:add_text(const char*)'], expect=['add_text_ascii_contract.postcondition']),
-        P('output_to_column', enforce='output_to_column/output_to_column_contract', canaries=2,
+        P('output_to_column', enforce='output_to_column/output_to_column_contract', canaries=2, defines=['NTC_TABLE'], timeout=1800,
           replace=['add_text_ascii/add_text_ascii_contract', NTC], loops=L_output_to_column,
           functions=['output.cpp:output_to_column'], expect=['output_to_column_contract.postcondition', 'loop_decreases'],
           mutants=[('tabs_when_not_allowed', r'if \(allow_tabs\)', 'if (true)', 'postcondition|loop_invariant'),
                    ('spaces_first', r'add_text\("\\t"\);', 'add_text(" "); add_text("\\t");', 'postcondition|loop_invariant'),
                    ('moves_left', r'while \(cpd.column < column\)\n   \{\n      add_text\(" "\);\n   \}\n\}', 'while (cpd.column < column)\n   {\n      add_text(" ");\n   }\n   cpd.column = column;\n}', 'postcondition|assigns')]),
-        P('cmt_output_indent', enforce='cmt_output_indent/cmt_output_indent_contract',
+        P('cmt_output_indent', enforce='cmt_output_indent/cmt_output_indent_contract', defines=['NTC_TABLE'], timeout=2400,
           replace=['add_text_ascii/add_text_ascii_contract', NTC], loops=L_cmt_output_indent,
           functions=['output.cpp:cmt_output_indent'], expect=['cmt_output_indent_contract.postcondition', 'loop_decreases'],
           mutants=[('tabs_always', r'size_t iwt = options::indent_cmt_with_tabs\(\) \? 2 :', 'size_t iwt = true ? 2 :', 'postcondition')]),
